@@ -251,6 +251,12 @@ class LRI(dict):
             self.hit_count += 1
             return link[VALUE]
 
+    def __contains__(self, key):
+        # under the lock, like __len__: a multi-key update() on a full
+        # cache momentarily evicts keys it stores again right after
+        with self._lock:
+            return super().__contains__(key)
+
     def get(self, key, default=None):
         try:
             return self[key]
